@@ -164,7 +164,7 @@ pub fn run_writer(spec: &FileSpec, sink: &SimSink, mut observe: impl FnMut(&Step
 	let mut writer = match built {
 		Ok(Ok(w)) => {
 			if !push_step(&mut run, usize::MAX, Ok(()), None) {
-				std::mem::forget(w);
+				let _ = catch(|| drop(w));
 				return run;
 			}
 			w
@@ -278,8 +278,10 @@ pub fn run_writer(spec: &FileSpec, sink: &SimSink, mut observe: impl FnMut(&Step
 		}
 	}
 	if writer_dead {
-		// a writer that panicked mid-call is in an unknown state: leak it rather than run its Drop
-		std::mem::forget(writer);
+		// abandoned history (or a writer that panicked mid-call): its Drop may flush into the healed sink or panic
+		// again — neither matters any more, but the writer must not be leaked (thousands of abandoned histories per
+		// scenario would otherwise accumulate their buffers and codec contexts)
+		let _ = catch(|| drop(writer));
 		return run;
 	}
 	let end_idx = spec.ops.len();
